@@ -252,21 +252,30 @@ func (c *Channel) Invoke(ctx context.Context, method string, req, resp interface
 		ctx := grpc.NewContextWithServerTransportStream(makeServerContext(ctx), &sts)
 		v, err := md.Handler(handler, ctx, codec, c.unaryInterceptor)
 		verifPoint("unary.srv.handled")
+		// If the context ends while the reply is being delivered, stop: the
+		// caller must see either the complete reply or the context error,
+		// never a reply with some of its frames missing.
 		if h := sts.GetHeaders(); len(h) > 0 {
 			verifPoint("unary.srv.wH")
-			_ = writeMessage(ctx, nil, ch, frame{headers: h})
+			if writeMessage(ctx, nil, ch, frame{headers: h}) != nil {
+				return
+			}
 		}
 		if err == nil {
 			if isNil(v) {
 				err = status.Errorf(codes.Internal, "handler returned neither error nor response message")
 			} else {
 				verifPoint("unary.srv.wD")
-				_ = writeMessage(ctx, nil, ch, frame{data: v})
+				if writeMessage(ctx, nil, ch, frame{data: v}) != nil {
+					return
+				}
 			}
 		}
 		if t := sts.GetTrailers(); len(t) > 0 {
 			verifPoint("unary.srv.wT")
-			_ = writeMessage(ctx, nil, ch, frame{trailers: t})
+			if writeMessage(ctx, nil, ch, frame{trailers: t}) != nil {
+				return
+			}
 		}
 		if err != nil {
 			verifPoint("unary.srv.wE")
@@ -281,6 +290,11 @@ func (c *Channel) Invoke(ctx context.Context, method string, req, resp interface
 		case r, ok := <-ch:
 			if !ok {
 				// no more messages
+				if err := ctx.Err(); err != nil {
+					// the server stops delivering frames once the context
+					// is done, so what we have may be incomplete
+					return internal.TranslateContextError(err)
+				}
 				if !gotResponse {
 					return io.EOF
 				}
